@@ -605,6 +605,8 @@ class ExprMixin:
             return VBuiltin('tuple.' + attr, base)
         if isinstance(base, (VInt, VBool)):
             self.raise_('AttributeError', node)
+        if isinstance(base, VBuiltin) and base.self_val is None:
+            return VBuiltin(base.name + '.' + attr)
         if isinstance(base, VFunc):
             if attr == '__name__':
                 return VStr(base.info.name)
@@ -645,6 +647,10 @@ class ExprMixin:
                 return self.cached_const((ci.module.name, ci.name + '.' + attr), ci.module, valnode, attr)
         if attr == 'args' and self.is_subclass_name(c.cls, 'BaseException'):
             return VTuple(())
+        tc = self.top_contract
+        if tc is not None and attr in tc.callees and getattr(tc.callees[attr], 'sig', None):
+            from .calls import VExt
+            return VExt(tc.callees[attr], ptr)
         r = models.obj_getattr_missing(self, ptr, c, attr, node)
         if r is not None:
             return r
